@@ -24,6 +24,8 @@ def gen(ctx):
     rng = ctx.rng
     for a in R.boundary_update_cases():
         yield Case("RUN", a, tags=("handle-limits",))
+    for a in R.same_names_other_program_cases():
+        yield Case("RUN", a, tags=("same-names-other-program",))
     for _ in range(40000 if ctx.thorough else 3000):
         yield Case("RUN", R.gen_case(rng, n=rng.randrange(2, 16), adversarial=0.0, faults=rng.choice([0.0, 0.1]), stop=0.0), tags=("commands",))
 
